@@ -409,6 +409,12 @@ def run(ctx):
         a = r3.randrange(1, 301)
         b = min(300, a + int(r3.expovariate(0.05))) if i % 2 else r3.randrange(a, 301)
         seq_case(ref3, a, b, r3.choice("--+."), r3.random() < 0.8, "iupac_random")
+    # one FASTA path whose content changes between calls (lengths 500 / 300 / 30 in turn)
+    for i in range(9 if not ctx.thorough else 60):
+        rr = [ref, ref3, ref2][i % 3]
+        a = r3.randrange(1, len(rr) + 1)
+        b = r3.randrange(a, len(rr) + 1)
+        seq_case(rr, a, b, r3.choice("+-"), True, "reused_path")
     out = ctx.model(cmds)
     if out is not None:
         for c, m, e, (comp, inp) in zip(cmds, out, exp, tags):
@@ -426,16 +432,30 @@ def run(ctx):
     return res
 
 
+REUSED = [0]
+
+
 def judge_sequence(ctx, res, case):
     """the sequence clause on one (reference, start, end, strand, use_strand); returns what the real code returned"""
     from gffutils.feature import Feature
     ref, a, b = case["reference"], case["start"], case["end"]
     fa = os.path.join(ctx.scratch, "ref-%s.fa" % hashlib.sha1(ref.encode()).hexdigest()[:12])
+    if case.get("stream") == "reused_path":
+        # ONE file name whose content is replaced between calls (a regenerated reference): an index built for the earlier
+        # content is older than the file and must not be used for the new one
+        fa = os.path.join(ctx.scratch, "ref-reused.fa")
+        REUSED[0] += 1
+        if os.path.exists(fa):
+            os.unlink(fa)
     if not os.path.exists(fa):
         with open(fa, "w") as fh:
             fh.write(">%s\n" % case["seqid"])
             for i in range(0, len(ref), 60):
                 fh.write(ref[i:i + 60] + "\n")
+    if case.get("stream") == "reused_path":
+        import time
+        t = time.time() + 10 * REUSED[0]              # strictly newer than any index written so far
+        os.utime(fa, (t, t))
     f = Feature(seqid=case["seqid"], start=a, end=b, strand=case["strand"])
     want = ref[a - 1:b]
     if case["use_strand"] and case["strand"] == "-":
